@@ -122,7 +122,7 @@ def batchHandle (st : BState) (args : List String) : BState × String :=
     | some m =>
       if m.op != .data then (st, "ok-noop") else
       let (r, b') := st.K.add st.b m
-      ({ st with b := b' }, s!"{showRes r} full={st.K.isFull b'} empty={b'.isEmpty} n={b'.payload.length} bytes={b'.bytes} ids={showIds b'.payload} txns={showTxns b'.txns}")
+      ({ st with b := b' }, s!"{showRes r} full={st.K.isFull b'} empty={b'.isEmpty} n={b'.payload.length} bytes={b'.bytes} ids={showIds b'.payload} txns={showTxns b'.txns} mtime={if touchesMtime r then "changed" else "same"} ctime=same")
     | none => (st, "bad-op")
   | _ => (st, "bad-op")
 
